@@ -1446,3 +1446,101 @@ Theorem sorted_listing_spec_all {A} (rows : list (bytes * A)) :
   /\ (Permutation (isort desc rows) rows
       /\ StronglySorted (fun x y => ble (fst y) (fst x) = true) (isort desc rows)).
 Proof. exact (conj (isort_ble_spec rows) (isort_desc_spec rows)). Qed.
+
+(* ------------------------------------------------------------------------------------------ *)
+(* inner-iteration faults *)
+
+Lemma scan_until_hit {A} bad (stmt : list (bytes * A)) :
+  fault_in_stmt bad stmt = true -> snd (scan_until bad stmt) = true.
+Proof.
+  induction stmt as [|r t IH]; simpl; intro H; [discriminate|].
+  destruct (beqb (fst r) bad); [reflexivity|]. simpl in H.
+  specialize (IH H). destruct (scan_until bad t) as [p e]. exact IH.
+Qed.
+
+Lemma scan_until_miss {A} bad (stmt : list (bytes * A)) :
+  fault_in_stmt bad stmt = false -> scan_until bad stmt = (stmt, false).
+Proof.
+  induction stmt as [|r t IH]; simpl; intro H; [reflexivity|].
+  destruct (beqb (fst r) bad); [discriminate|]. simpl in H. rewrite (IH H). reflexivity.
+Qed.
+
+Lemma page_keyset_f_clean {A} le (rows : list (bytes * A)) size from :
+  page_keyset_f le rows size from None = page_keyset le rows size from.
+Proof. reflexivity. Qed.
+
+Theorem paging_fault_never_truncates_keyset {A} le (rows : list (bytes * A)) size from bad :
+  fault_in_stmt bad (keyset_stmt le rows size from) = true ->
+  page_keyset_f le rows size from (Some bad) = Rejected EInternal.
+Proof.
+  intro H. unfold page_keyset_f, scan. pose proof (scan_until_hit _ _ H) as Hs.
+  destruct (scan_until bad (keyset_stmt le rows size from)) as [got failed].
+  simpl in Hs. rewrite Hs. reflexivity.
+Qed.
+
+Theorem paging_fault_outside_keyset {A} le (rows : list (bytes * A)) size from bad :
+  fault_in_stmt bad (keyset_stmt le rows size from) = false ->
+  page_keyset_f le rows size from (Some bad) = page_keyset le rows size from.
+Proof.
+  intro H. unfold page_keyset_f, scan. rewrite (scan_until_miss _ _ H). reflexivity.
+Qed.
+
+(* command level: ListStores, ReadAuthorizationModels, Read on sqlite.  A request whose statement
+   reaches the faulty row is an error -- never a page, hence never a page with the end marker *)
+Theorem paging_fault_never_truncates_all {A} (rows : list (bytes * A)) ps tok from bad :
+  (fault_in_stmt bad (keyset_stmt ble rows (page_size_opt ps) tok) = true ->
+   stores_sql_f rows (Some bad) ps tok = Rejected EInternal)
+  /\ (fault_in_stmt bad (keyset_stmt desc rows (page_size_opt ps) tok) = true ->
+      models_sql_f rows (Some bad) ps tok = Rejected EInternal)
+  /\ (storage_from tok = Some from ->
+      fault_in_stmt bad (keyset_stmt ble rows (page_size_opt ps) from) = true ->
+      read_sql_f rows (Some bad) ps tok = Rejected EInternal).
+Proof.
+  split; [|split].
+  - intro H. unfold stores_sql_f, raw_cmd. apply paging_fault_never_truncates_keyset. exact H.
+  - intro H. unfold models_sql_f, raw_cmd. apply paging_fault_never_truncates_keyset. exact H.
+  - intros Hf H. unfold read_sql_f, read_cmd. unfold storage_from in Hf.
+    destruct tok as [|c r].
+    + inversion Hf; subst from. rewrite (paging_fault_never_truncates_keyset _ _ _ _ _ H). reflexivity.
+    + destruct (deserialize (c :: r)) as [[u ty]|]; [|discriminate]. inversion Hf; subst from.
+      rewrite (paging_fault_never_truncates_keyset _ _ _ _ _ H). reflexivity.
+Qed.
+
+(* without a reachable fault the faulty readers are the fault-free ones *)
+Theorem paging_fault_outside_all {A} (rows : list (bytes * A)) ps tok bad :
+  (fault_in_stmt bad (keyset_stmt ble rows (page_size_opt ps) tok) = false ->
+   stores_sql_f rows (Some bad) ps tok = stores_sql rows ps tok)
+  /\ (fault_in_stmt bad (keyset_stmt desc rows (page_size_opt ps) tok) = false ->
+      models_sql_f rows (Some bad) ps tok = models_sql rows ps tok).
+Proof.
+  split; intro H; unfold stores_sql_f, stores_sql, models_sql_f, models_sql, raw_cmd;
+    apply paging_fault_outside_keyset; exact H.
+Qed.
+
+Lemma changes_page_f_clean {A} (rows : list (bytes * A)) size from :
+  changes_page_f rows size from None = changes_page (fun k => Some k) true rows size from.
+Proof.
+  unfold changes_page_f, changes_page, changes_stmt, scan, norm_key. destruct from; reflexivity.
+Qed.
+
+Theorem changes_fault_outside {A} (rows : list (bytes * A)) size from bad :
+  fault_in_stmt bad (changes_stmt rows size from) = false ->
+  changes_page_f rows size from (Some bad) = changes_page_f rows size from None.
+Proof.
+  intro H. unfold changes_page_f, scan. rewrite (scan_until_miss _ _ H). reflexivity.
+Qed.
+
+Definition crows3 : list (bytes * N) :=
+  [([48; 49; 65], 1); ([48; 49; 66], 2); ([48; 49; 67], 3)].
+
+(* sqlite ReadChanges has no rows.Err() check: a fault on the second change ends the traversal
+   after the first one, with the ordinary end-of-log marker and no error *)
+Theorem changes_fault_never_truncates_refuted :
+  exists (rows : list (bytes * N)) ps ty bad,
+    changes_sql_fault_hit rows bad ps [] = true
+    /\ follow_changes 4 (changes_sql_f rows (Some bad) ps ty) []
+       = ([([1], [48; 49; 65; 124]); ([], [48; 49; 65; 124])], EndMarker)
+    /\ pages_items (fst (follow_changes 4 (changes_sql_f rows None ps ty) [])) = [1; 2; 3].
+Proof.
+  exists crows3, 2%Z, [], [48; 49; 66]. vm_compute. repeat split; reflexivity.
+Qed.
